@@ -55,6 +55,12 @@ func muxChain(seed uint64, n int) (tps []*tuple, genesisRoot []byte, rep *muxdrv
 		return cmttypes.NewValidatorSet(vals)
 	}
 	cp := *g.Cmt.ConsensusParams
+	// the validators' real consensus keys sign the headers (light verification runs on them)
+	keys := map[string]cmted.PrivKey{}
+	for _, v := range g.Validators {
+		k := cmted.PrivKey(v.Cons.Priv)
+		keys[string(k.PubKey().Address())] = k
+	}
 	var appHash []byte // of the initial height: InitChain's response (not recorded by the driver); tuples start at the second block
 	lastResultsHash := cmttypes.NewResults(nil).Hash()
 	lastBlockID := cmttypes.BlockID{}
@@ -154,7 +160,7 @@ func muxChain(seed uint64, n int) (tps []*tuple, genesisRoot []byte, rep *muxdrv
 		next.Height, next.LastResultsHash, next.AppHash = in.Height+1, resultsHash, res.AppHash
 		if i > 0 {
 			tps = append(tps, &tuple{name: fmt.Sprintf("mux-%d-%d", seed, in.Height), height: in.Height, valsProto: must(must(vals.ToProto()).Marshal()),
-				root: res.AppHash, header: must(hdr.ToProto().Marshal()), nextHeader: must(next.ToProto().Marshal()),
+				root: res.AppHash, hdr: hdr, commit: must(signCommit(&hdr, vals, keys).ToProto().Marshal()), header: must(hdr.ToProto().Marshal()), nextHeader: must(next.ToProto().Marshal()),
 				block: cblk, txs: txs, results: results, resultsHash: resultsHash,
 				validators: must(light.EncodeValidators(nextVals, in.Height+1)), params: params, stateParams: sp, sigTxs: sigTxs})
 		}
